@@ -8,6 +8,9 @@
    Mode "batch" : the same plus every batch of at most MaxBatch mutations over BatchKeys x BatchVals
                   (the empty batch included), built mutation by mutation like BeginBatch/Set/Delete/
                   CommitBatch in the code, so the enumeration cost is linear in the batch length.
+   Mode "scan"  : every history  set(k, v) ; flush | reopen ; find(start, end)  over BatchKeys x BatchVals and ALL
+                  cursor pairs (inverted and empty ranges included): every range shape against a store whose
+                  data has just been moved (flushed to the backing store / written out and reopened).
    Mode "all"   : every call over the whole alphabet including get and find(start, end), used with
                   -simulate for long random histories (batches over the whole alphabet). *)
 EXTENDS SortedKV, TLC, Json
@@ -32,12 +35,15 @@ BV == IF Mode = "all" THEN Vals ELSE BatchVals
 (* One disjunct of GNext per kind of call: in -simulate mode TLC first picks a disjunct at random and then
    one of its successors, so every kind of call is about equally frequent whatever its number of arguments. *)
 Can == ~inb /\ Len(hist) < Depth /\ UNCHANGED <<inb, pending>>
-SetA    == Can /\ \E k \in KS, v \in VS : Call(O("set", k, v, <<>>))
-DeleteA == Can /\ \E k \in KS : Call(O("delete", k, 0, <<>>))
-FlushA  == Can /\ Call(O("flush", 0, 0, <<>>))
-ReopenA == Can /\ Call(O("reopen", 0, 0, <<>>))
+Stage(n) == Mode # "scan" \/ Len(hist) = n          \* "scan" histories have a fixed shape
+SetA    == Can /\ Stage(0) /\ \E k \in (IF Mode = "scan" THEN BK ELSE KS), v \in (IF Mode = "scan" THEN BV ELSE VS) :
+                                Call(O("set", k, v, <<>>))
+DeleteA == Can /\ Mode # "scan" /\ \E k \in KS : Call(O("delete", k, 0, <<>>))
+FlushA  == Can /\ Stage(1) /\ Call(O("flush", 0, 0, <<>>))
+ReopenA == Can /\ Stage(1) /\ Call(O("reopen", 0, 0, <<>>))
 GetA    == Can /\ Mode = "all" /\ \E k \in Keys : Call(O("get", k, 0, <<>>))
-FindA   == Can /\ Mode = "all" /\ \E s \in Cursors, e \in Cursors : Call(O("find", s, e, <<>>))
+FindA   == Can /\ (Mode = "all" \/ (Mode = "scan" /\ Len(hist) = 2))
+               /\ \E s \in Cursors, e \in Cursors : Call(O("find", s, e, <<>>))
 FindAllA == Can /\ Mode = "all" /\ \E s \in {0, 1}, e \in {0, NK} : Call(O("find", s, e, <<>>))
 
 Begin  == /\ Mode \in {"batch", "all"} /\ ~inb /\ Len(hist) < Depth
